@@ -99,7 +99,8 @@ type c03Panic struct {
 }
 
 // message verbs, a numeric, an unknown verb, and verbs that also have built-in internal handlers
-var c03Verbs = []string{"PRIVMSG", "NOTICE", "372", "CUSTOM", "PING", "CAP", "433", "NICK"}
+// (and the verbs a server uses when a link is about to end or that a client might be tempted to treat out of band)
+var c03Verbs = []string{"PRIVMSG", "NOTICE", "372", "CUSTOM", "PING", "CAP", "433", "NICK", "ERROR", "PONG", "QUIT", "KILL", "AUTHENTICATE", "904"}
 
 func genC03(t *rapid.T) *c03Scenario {
 	sc := &c03Scenario{LongAt: -1, Handlers: map[string][]c03Handler{}}
